@@ -50,6 +50,19 @@ function instrument(src, opts) {
   function params(ps) { return '(' + ps.map(pat).join(', ') + ')'; }
 
   // --- functions ---------------------------------------------------------------
+  const INTR = /^(Nondet[A-Za-z0-9]*|VerifOut[A-Za-z0-9]*|VerifYield|VerifAssume|VerifReach|VerifChoice)$/;
+  const exportScopes = [];
+  function exportsOf(body) { // `$pkg.NondetInt8 = A;` statements directly in this function body (how exported functions appear, also when minified)
+    const m = {};
+    if (!body || body.type !== 'BlockStatement') return m;
+    for (const st of body.body) {
+      const x = st.type === 'ExpressionStatement' ? st.expression : null;
+      if (x && x.type === 'AssignmentExpression' && x.operator === '=' && x.left.type === 'MemberExpression' && !x.left.computed &&
+          x.left.object.type === 'Identifier' && x.left.object.name === '$pkg' && INTR.test(x.left.property.name) && x.right.type === 'Identifier')
+        m[x.right.name] = x.left.property.name;
+    }
+    return m;
+  }
   function fnBody(n, name) {
     // Intercept the harness intrinsics by the *name the compiler gave the function*.
     const m = name && /^(Nondet[A-Za-z0-9]*|VerifOut[A-Za-z0-9]*|VerifYield|VerifAssume|VerifReach|VerifChoice)(\$\d+)?$/.exec(name);
@@ -61,7 +74,10 @@ function instrument(src, opts) {
         'C64: typeof $Complex64 !== "undefined" ? $Complex64 : null, C128: typeof $Complex128 !== "undefined" ? $Complex128 : null, ' +
         'env: typeof $curGoroutine !== "undefined" ? {cur: () => $curGoroutine, block: $block, schedule: $schedule, setTimeout: $setTimeout} : null}); }';
     }
-    if (n.body.type === 'BlockStatement') return block(n.body);
+    if (n.body.type === 'BlockStatement') {
+      exportScopes.push(exportsOf(n.body));
+      try { return block(n.body); } finally { exportScopes.pop(); }
+    }
     return '{ return ' + e(n.body) + '; }';
   }
   function func(n) {
@@ -284,6 +300,10 @@ function instrument(src, opts) {
           if (l.type === 'MemberExpression' && l.computed)
             return '$$.p(' + e(l.object) + ', ' + e(l.property) + ', ' + e(n.right) + ')';
           if (l.type === 'MemberExpression') return '(' + lhsMember(l) + ' = ' + e(n.right) + ')';
+          if (l.type === 'Identifier' && n.right.type === 'FunctionExpression' && exportScopes.length) {
+            const intr = exportScopes[exportScopes.length - 1][l.name];
+            if (intr) return '(' + l.name + ' = (function' + params(n.right.params) + ' ' + fnBody(n.right, intr) + '))';
+          }
           return '(' + pat(l) + ' = ' + e(n.right) + ')';
         }
         const bop = op.slice(0, -1);
